@@ -3,6 +3,7 @@ CONSTANTS
   Vouchers = {"va", "vb"}
   AmtClasses = {"1", "2", "zero", "garbage", "neg"}
   RecvClasses = {"user", "invalid", "blocked", "hexsender"}
+  NatMax = 2
   BackDenoms = {"va", "vb"}
   HookReturnsAck = TRUE
 INVARIANTS AckAlwaysCommitted SuccessAcked Backed NonNegative
